@@ -4,6 +4,10 @@ import json, os
 HERE = os.path.dirname(os.path.dirname(os.path.abspath(__file__)))
 
 CLAIMED = {
+ 'C17': ('clang AST rules: exhaustive evaluation of the two comparators over all operand orderings, guard-chain (control dependence) rules for acceptance, loop-shape and who-precedes rules for search order and dependency loading, producer/consumer separator agreement',
+         'Decides for every call history the structural necessary conditions: version comparison is lexicographic on (major, minor) and candidate election is newest-first then earliest-directory (exhaustive over the 9+9 orderings, comparison-only code); success in require_internal is control-dependent on file found, namespace match, version match and registration; conflict and not-found error codes; forward first-hit search, unconditional prepend, first directory wins among equal versions; every recorded dependency is required unconditionally at the version after the last dash; the compiler joins dependencies with the separator the loader splits on.',
+         'Not decided (not applicable): what concrete directories contain, which files map successfully, histories of calls. Trusted: clang-14 parser; stub GLib headers (only shapes of types/macros; g_assert does not return when false).',
+         '§4 C17'),
  'C07': ('symbolic interpretation of the writer into an element/attribute table, tag-flow analysis of the reader, finite-domain composition of emission and decoding tables',
          'Decides for every input, at element/attribute level: each attribute and child the writer can emit is read for that element (605 pairs); for 20 element kinds the writer\'s emission table composed with the reader\'s decoding (constructor bodies and stores, evaluated as expression trees over finite abstract domains) is a fixed point W(R(W(m)))=W(m) for every realisable valuation (exhaustive); namespace-relative names are stripped/qualified by the same rule; sibling order is sorted or order-carrying; values reach the text only through the stdlib escaping functions.',
          'Not decided: byte identity for arbitrary documentation text and positions, numeric re-formatting, nested type structure, indices (closure/destroy/length are carried through opaquely). Assumes types without transfer are not const-qualified and registered types have a get_type (reviewed). Trusted: CPython ast; tables KINDS/DERIVED in gilint/props/c07.py.',
